@@ -1,6 +1,7 @@
 package c19
 
 import (
+	"encoding/base64"
 	"fmt"
 	"strings"
 	"time"
@@ -109,6 +110,23 @@ func (d *Driver) runRaw() error {
 		}
 	}
 
+	for id, b := range d.opt.Override {
+		if strings.HasPrefix(id, "rawrequest/mutate/") {
+			name := strings.TrimPrefix(id, "rawrequest/")
+			found := false
+
+			for i := range cases {
+				if cases[i].name == name {
+					cases[i].payload, found = string(b), true
+				}
+			}
+
+			if !found {
+				cases = append(cases, rawCase{name: name, payload: string(b)})
+			}
+		}
+	}
+
 	for _, c := range cases {
 		id := "rawrequest/" + c.name
 		if !strings.Contains(c.name, "/") {
@@ -141,8 +159,17 @@ func (d *Driver) runRaw() error {
 		}
 
 		d.emit(Event{Ev: "request", ID: id, Entry: "rawrequest", Class: class, Outcome: outcome, Status: status,
-			Alive: alive, StateKept: true, Via: "bytes over a TCP connection to the decision service"})
+			Alive: alive, StateKept: true, Via: "bytes over a TCP connection to the decision service",
+			Input: x(strings.Contains(c.name, "mutate"), base64.StdEncoding.EncodeToString([]byte(c.payload)), "")})
 	}
 
 	return nil
+}
+
+func x[T any](c bool, a, b T) T {
+	if c {
+		return a
+	}
+
+	return b
 }
